@@ -1,4 +1,5 @@
 //! FU — the farm universe (DESIGN.md §3): positions, farms, claims, epochs; two LP tokens.
+use cw_multi_test::Executor;
 use crate::engine::*;
 use crate::world::*;
 use cosmwasm_std::{coin, Addr, Coin, Decimal, Uint128};
@@ -71,6 +72,11 @@ impl FuObs {
     }
     pub fn farm(&self, id: &str) -> Option<&fm::Farm> {
         self.farms.iter().find(|f| f.identifier == id)
+    }
+    /// denom an operation's LP index stands for: 0/1 the first pool manager's two LP tokens, 2 the token `o.a.LP` of the
+    /// pool manager the farm manager is configured with
+    pub fn lp_denom(&self, lp: usize) -> String {
+        self.lps.get(lp).cloned().unwrap_or_else(|| format!("factory/{}/o.a.LP", self.cfg.as_ref().map(|c| c.pool_manager_addr.to_string()).unwrap_or_default()))
     }
     pub fn lp_index(&self, denom: &str) -> Option<usize> {
         self.lps.iter().position(|l| l == denom)
@@ -154,7 +160,11 @@ fn coins(f: &Funds) -> Vec<Coin> {
 pub fn apply(w: &mut World, op: &FuOp) -> Outcome {
     let fma = w.farm_manager.clone();
     let pma = w.pool_manager.clone();
-    let lpd = lps(w);
+    let mut lpd = lps(w);
+    // index 2: the LP token of pool `o.a` of whatever pool manager the farm manager is configured with now
+    // (the first pool manager's own token unless the owner re-pointed it)
+    let pm_now = w.query::<fm::Config, _>(&fma, &fm::QueryMsg::Config {}).map(|c| c.pool_manager_addr.to_string()).unwrap_or_else(|_| pma.to_string());
+    lpd.push(format!("factory/{pm_now}/o.a.LP"));
     let user = |w: &World, u: usize| if u < N_USERS { w.users[u].clone() } else { accounts(w)[u].clone() };
     let mp = |action| fm::ExecuteMsg::ManagePosition { action };
     match op {
@@ -214,6 +224,31 @@ pub fn apply(w: &mut World, op: &FuOp) -> Outcome {
         }
         FuOp::SetPenalty { u, pct } => w.exec(&user(w, *u), &fma, &upd(None, Some(Decimal::percent(*pct))), &[]),
         FuOp::SetFarmFee { u, denom, amt } => w.exec(&user(w, *u), &fma, &upd(Some(coin(*amt, denom)), None), &[]),
+        FuOp::SetCfg { u, field, .. } if field == "second_pool_manager" => {
+            // a second pool-manager instance (a redeployment) with a pool of the same identifier as the first one's pool `a`,
+            // funded by every user; the farm manager's owner then points pool_manager_addr at it
+            let owner = w.users[OWNER].clone();
+            let (fc, fmg) = (w.fee_collector.to_string(), w.farm_manager.to_string());
+            let app = &mut w.app;
+            let pm2 = match app.instantiate_contract(4, owner.clone(), &pm::InstantiateMsg { fee_collector_addr: fc, farm_manager_addr: fmg, pool_creation_fee: coin(1000, "uusd") }, &[], "pool2", None) {
+                Ok(a) => a,
+                Err(e) => return Outcome::Rejected(format!("{:#}", e)),
+            };
+            let zf = Fee { share: Decimal::zero() };
+            let fees = PoolFee { protocol_fee: zf.clone(), swap_fee: zf.clone(), burn_fee: zf, extra_fees: vec![] };
+            let o = w.exec(&owner, &pm2, &pm::ExecuteMsg::CreatePool { asset_denoms: vec!["uom".into(), "uusd".into()], asset_decimals: vec![6, 6], pool_fees: fees, pool_type: pm::PoolType::ConstantProduct, pool_identifier: Some("a".into()) }, &[coin(8888, "uom"), coin(1000, "uusd")]);
+            if !o.is_ok() {
+                return o;
+            }
+            for i in 0..N_USERS {
+                let usr = w.users[i].clone();
+                let o = w.exec(&usr, &pm2, &pm::ExecuteMsg::ProvideLiquidity { liquidity_max_slippage: None, swap_max_slippage: None, receiver: None, pool_identifier: "o.a".into(), unlocking_duration: None, lock_position_identifier: None }, &[coin(10_000_000, "uom"), coin(10_000_000, "uusd")]);
+                if !o.is_ok() {
+                    return o;
+                }
+            }
+            w.exec(&user(w, *u), &fma, &fm::ExecuteMsg::UpdateConfig { fee_collector_addr: None, epoch_manager_addr: None, pool_manager_addr: Some(pm2.to_string()), create_farm_fee: None, max_concurrent_farms: None, max_farm_epoch_buffer: None, min_unlocking_duration: None, max_unlocking_duration: None, farm_expiration_time: None, emergency_unlock_penalty: None }, &[])
+        }
         FuOp::SetCfg { u, field, val } => {
             let mut m = (None, None, None, None, None);
             // address fields: val is an account index (users, then pool manager, farm manager, fee collector)
@@ -627,6 +662,12 @@ impl FuChecker {
                 v = self.seed_ops("F2");
                 v.push(FuOp::SetCfg { u: OWNER, field: "pool_manager".into(), val: C as u64 });
             }
+            "F21" => {
+                // F2, then the pool manager is redeployed: a second instance holds a pool with the same identifier (its LP token has
+                // the same symbol under another creator) and the farm manager's owner points pool_manager_addr at it
+                v = self.seed_ops("F2");
+                v.push(FuOp::SetCfg { u: OWNER, field: "second_pool_manager".into(), val: 0 });
+            }
             "F19" => {
                 // two farms paying the same denom one after the other; A claims 8 epochs of the first; the epoch manager's owner
                 // then restarts the epoch numbering (genesis an hour ahead); B stakes 99x as much at the new epoch 0; ten new epochs pass
@@ -762,6 +803,10 @@ pub fn enabled(c: &FuChecker, w: &World, pre: &FuObs, g: &FuGhost) -> Vec<FuOp> 
                         if a != FAlpha::RewardCore && amt > 2 {
                             ops.push(FuOp::ClosePos { u, id: p.identifier.clone(), partial: Some((li, amt - 1)) });
                         }
+                    }
+                    if matches!(a, FAlpha::Full | FAlpha::Positions) && pre.cfg.as_ref().map_or(false, |c| c.pool_manager_addr != w.pool_manager) {
+                        // after a re-pointing of pool_manager_addr: top-up with the configured pool manager's token of the same symbol
+                        ops.push(FuOp::ExpandPos { u, id: p.identifier.clone(), lp: 2, amount: 500 });
                     }
                     if matches!(a, FAlpha::Full | FAlpha::Positions) {
                         // a small locked deposit into the OTHER pool naming this position (whose LP token is not that pool's)
